@@ -491,6 +491,10 @@ func (v *vc) frameObligations(fr *frame, st *state, site string) {
 		for _, r := range refs {
 			excl = append(excl, fmt.Sprintf("(not (= r %s))", r))
 		}
+		if strings.HasPrefix(h, "A ") {
+			// row 0 is the backing "array" of nil / zero-capacity slices: it has no element anyone can reach
+			excl = append(excl, "(not (= r 0))")
+		}
 		// objects allocated by this call (ref >= top0, or elements of arrays allocated by it) are not in the frame
 		cond := and(append([]string{fmt.Sprintf("(< r %s)", top0), fmt.Sprintf("(< (elem_arr r) %s)", top0)}, excl...)...)
 		v.oblige(st, "frame", h, site, fmt.Sprintf("(forall ((r Int)) (=> %s (= (select %s r) (select %s r))))", cond, cur, old), nil)
